@@ -45,7 +45,20 @@ class World:
         self.hier = [(0, None), (1, 0), (2, None)]
         self.types = [("bool", BoolType()), ("int", IntType()), ("int[0,10]", IntType(0, 10)), ("int[3,inf]", IntType(3, None)),
                       ("real", RealType()), ("real[0,1]", RealType(0, 1)), ("real[-inf,5/2]", RealType(None, Fraction(5, 2))),
-                      ("Loc", Loc), ("SubLoc", Sub), ("Robot", Rob)]
+                      ("Loc", Loc), ("SubLoc", Sub), ("Robot", Rob),
+                      # appended (indices above are used by the hand-written sessions): bounds that are not small integers --
+                      # thirds / tenths, bounds written as python floats (not exactly representable), bounds at +-2^53
+                      ("real[0,1/10]", RealType(0, Fraction(1, 10))), ("real[1/3,2/3]", RealType(Fraction(1, 3), Fraction(2, 3))),
+                      ("real[-0.3f,0.1f]", RealType(-0.3, 0.1)), ("int[-2^53,2^53]", IntType(-2 ** 53, 2 ** 53)),
+                      ("real[-2^53,2^53]", RealType(-2 ** 53, 2 ** 53))]
+        # the bounds as DECLARED by the caller (exact rationals; a python float stands for its exact binary value), per
+        # numeric target type.  Calls are rendered for the model with these, the stored content with what the
+        # implementation's Type objects say; the Python oracle judges stored constants against these, exactly.
+        self.bounds = {1: (None, None), 2: (0, 10), 3: (3, None), 4: (None, None), 5: (0, 1), 6: (None, Fraction(5, 2)),
+                       10: (0, Fraction(1, 10)), 11: (Fraction(1, 3), Fraction(2, 3)), 12: (Fraction(-0.3), Fraction(0.1)),
+                       13: (-2 ** 53, 2 ** 53), 14: (-2 ** 53, 2 ** 53)}
+        self.bounds = {ti: tuple(None if b is None else Fraction(b) for b in bs) for ti, bs in self.bounds.items()}
+        self.boundary = {ti: self.boundary_values(bs) for ti, bs in self.bounds.items() if bs != (None, None)}
         self.objects = [Object("c23_l1", Loc), Object("c23_s1", Sub), Object("c23_r1", Rob)]
         self.obj_id = {o.name: i for i, o in enumerate(self.objects)}
         # source fluents used inside non-constant value expressions
@@ -58,7 +71,40 @@ class World:
         self.values = [True, False, 0, 5, 12, -3, Fraction(1, 2), Fraction(7), 2.5, 0.0, Fraction(-1, 3)] + self.objects + \
             self.nonconst + ["abc"]
 
+    @staticmethod
+    def boundary_values(bounds):
+        """Values adjacent to each declared bound, on both sides: the bound itself, exact Fractions with large denominators
+        that miss it by 1e-7, 1e-10, 1e-20 and 2^-60 (inside and outside), the nearest python float and its two neighbours
+        (floats are generally not exactly the bound), and for an integer bound the integers next to it (for +-2^53 these
+        are integers no float represents).  Python values exactly as a user would pass them."""
+        import math
+        out = []
+        for b in bounds:
+            if b is None:
+                continue
+            vals = [b if b.denominator != 1 else int(b)]
+            for d in (Fraction(1, 10 ** 7), Fraction(1, 10 ** 10), Fraction(1, 10 ** 20), Fraction(1, 2 ** 60)):
+                vals += [b - d, b + d]
+            fl = float(b)
+            vals += [fl, math.nextafter(fl, -math.inf), math.nextafter(fl, math.inf)]
+            if b.denominator == 1:
+                vals += [int(b) - 1, int(b) + 1]
+            for v in vals:
+                if not any(type(v) is type(u) and v == u for u in out):
+                    out.append(v)
+        return out
+
     # ---- Gallina renderings
+    def gty_decl(self, ti):
+        """The target type number ti as the caller declared it."""
+        t = self.types[ti][1]
+        if ti not in self.bounds:
+            return self.gty(t)
+        lo, hi = self.bounds[ti]
+        if t.is_int_type():
+            return "(TInt %s %s)" % (gopt(None if lo is None else gz(int(lo))), gopt(None if hi is None else gz(int(hi))))
+        return "(TReal %s %s)" % (gopt(None if lo is None else gqq(lo)), gopt(None if hi is None else gqq(hi)))
+
     def gty(self, t):
         if t.is_bool_type():
             return "TBool"
@@ -118,6 +164,20 @@ class World:
             return True
         return False
 
+    def value_ok(self, t, tis, v):
+        """Does the stored expression v belong to the target type t?  A numeric constant is judged by EXACT rational
+        comparison of its value with the declared bounds of every target-type number in `tis` (the bounds of t when
+        there is none); everything else by py_compatible on the types."""
+        if (t.is_int_type() or t.is_real_type()) and (v.is_int_constant() or v.is_real_constant()):
+            if t.is_int_type() and not v.is_int_constant():
+                return False
+            x = Fraction(v.constant_value())
+            for lo, hi in ([self.bounds[ti] for ti in tis if ti in self.bounds] or [(t.lower_bound, t.upper_bound)]):
+                if (lo is not None and x < lo) or (hi is not None and x > hi):
+                    return False
+            return True
+        return self.py_compatible(t, v.type)
+
 
 def gqq(fr):
     fr = Fraction(fr)
@@ -127,13 +187,17 @@ def gqq(fr):
 class Session:
     """One constructor call + one history, on fresh objects."""
 
-    def __init__(self, w, defaults):
+    def __init__(self, w, ds):
+        """ds = [(target type number, python value)]: the initial_defaults dictionary."""
         from unified_planning.shortcuts import Problem, InstantaneousAction, DurativeAction, StartTiming, GlobalStartTiming
         self.w = w
         self.ctor_raised = False
         self.problem = None
+        self.ds = list(ds)
+        self.decl = {}           # fluent name -> number of the target type it was declared with
+        self.instance_tis = []   # per stored ActionInstance: the target type numbers of its parameters
         try:
-            self.problem = Problem("c23_p", initial_defaults=dict(defaults))
+            self.problem = Problem("c23_p", initial_defaults={w.types[ti][1]: v for ti, v in ds})
         except Exception as e:
             self.ctor_raised = True
             self.ctor_exc = type(e).__name__
@@ -162,33 +226,35 @@ class Session:
         )
 
     def property_violations(self):
-        """Every stored value compatible with its target / constant where required, judged by py_compatible."""
+        """Every stored value belongs to its target type / is a constant where required, judged by World.value_ok (numeric
+        constants: exact comparison with the DECLARED bounds; otherwise py_compatible)."""
         w, p, bad = self.w, self.problem, []
+        of = lambda fluent: [self.decl[fluent.name]] if fluent.name in self.decl else []
         for t, v in p.initial_defaults.items():
-            if not (v.is_constant() and w.py_compatible(t, v.type)):
+            if not (v.is_constant() and w.value_ok(t, [ti for ti, _ in self.ds if w.types[ti][1] == t], v)):
                 bad.append("type-default")
         for f, v in p.fluents_defaults.items():
-            if not (v.is_constant() and w.py_compatible(f.type, v.type)):
+            if not (v.is_constant() and w.value_ok(f.type, of(f), v)):
                 bad.append("fluent-default")
         for k, v in p.explicit_initial_values.items():
-            if not (v.is_constant() and w.py_compatible(k.type, v.type)):
+            if not (v.is_constant() and w.value_ok(k.type, of(k.fluent()), v)):
                 bad.append("initial-value")
         for effs in (self.inst.effects, self.dur.effects.get(self.t_dur, []), p.timed_effects.get(self.t_prob, [])):
             for e in effs:
-                if not w.py_compatible(e.fluent.type, e.value.type):
+                if not w.value_ok(e.fluent.type, of(e.fluent.fluent()), e.value):
                     bad.append("effect-value")
         # read the initial state back through the public API: what a fluent is given must fit the fluent
         for f in p.fluents:
             if f.arity == 0:
                 v = p.initial_value(f())
-                if v is not None and not (v.is_constant() and w.py_compatible(f.type, v.type)):
+                if v is not None and not (v.is_constant() and w.value_ok(f.type, of(f), v)):
                     bad.append("initial_value(f)-readback")
         for k, v in p.initial_values.items():
-            if not (v.is_constant() and w.py_compatible(k.type, v.type)):
+            if not (v.is_constant() and w.value_ok(k.type, of(k.fluent()), v)):
                 bad.append("initial_values-readback")
-        for ai in self.instances:
-            for prm, v in zip(ai.action.parameters, ai.actual_parameters):
-                if not (v.is_constant() and w.py_compatible(prm.type, v.type)):
+        for ai, tis in zip(self.instances, self.instance_tis):
+            for prm, ti, v in zip(ai.action.parameters, tis, ai.actual_parameters):
+                if not (v.is_constant() and w.value_ok(prm.type, [ti], v)):
                     bad.append("instance-parameter")
         return sorted(set(bad))
 
@@ -211,12 +277,13 @@ def perform(sess, w, o):
         t = w.types[ti][1]
         f = Fluent("c23_f%d" % name_id, t)
         sess.fluent_ids[f] = name_id
-        g = "OpAddFluent %s %s %s" % (gn(name_id), w.gty(t), "None" if val[0] == "none" else "(Some %s)" % w.gval(val[1]))
+        g = "OpAddFluent %s %s %s" % (gn(name_id), w.gty_decl(ti), "None" if val[0] == "none" else "(Some %s)" % w.gval(val[1]))
         try:
             if val[0] == "none":
                 p.add_fluent(f)
             else:
                 p.add_fluent(f, default_initial_value=val[1])
+            sess.decl[f.name] = ti          # accepted, so the name is new in this problem
         except Exception as e:
             exc = type(e).__name__
         return g, exc
@@ -228,7 +295,8 @@ def perform(sess, w, o):
         else:
             fe = FluentExp(Fluent("c23_k%d" % key_id, t, l=w.utypes[0]), [w.nonconst[8]])
         sess.key_ids[fe] = key_id
-        g = "OpSetInit %s %s %s %s" % (gn(key_id), w.gty(t), gbool(args_const), w.gval(pyval))
+        sess.decl[fe.fluent().name] = ti    # key ids determine the target type (see gen_ops)
+        g = "OpSetInit %s %s %s %s" % (gn(key_id), w.gty_decl(ti), gbool(args_const), w.gval(pyval))
         try:
             p.set_initial_value(fe, pyval)
         except Exception as e:
@@ -238,6 +306,7 @@ def perform(sess, w, o):
         _, site, ek, ti, pyval, cond_kind, timing_ok, fl_id = o
         t = w.types[ti][1]
         fe = FluentExp(Fluent("c23_e%d" % fl_id, t))
+        sess.decl[fe.fluent().name] = ti    # effect fluent ids determine the target type (see gen_ops)
         cond = {"cond": w.cond_fluent, "true": True, "notbool": 5}[cond_kind]
         try:
             if site == "SInst":
@@ -252,15 +321,16 @@ def perform(sess, w, o):
                 fn(tm, fe, pyval, cond)
         except Exception as e:
             exc = type(e).__name__
-        g = "OpAddEffect %s %s %s %s %s %s %s" % (site, ek, w.gty(t), w.gval(pyval), gbool(cond_kind != "notbool"), gbool(timing_ok),
+        g = "OpAddEffect %s %s %s %s %s %s %s" % (site, ek, w.gty_decl(ti), w.gval(pyval), gbool(cond_kind != "notbool"), gbool(timing_ok),
                                                   gbool(exc == "UPConflictingEffectsException"))
         return g, exc
     if kind == "instance":
         _, params = o                      # [(type index, pyvalue)]
         a = InstantaneousAction("c23_act", **{"p%d" % i: w.types[ti][1] for i, (ti, _) in enumerate(params)})
-        g = "OpInstance %s" % glist([gpair(w.gty(w.types[ti][1]), w.gval(v)) for ti, v in params])
+        g = "OpInstance %s" % glist([gpair(w.gty_decl(ti), w.gval(v)) for ti, v in params])
         try:
             sess.instances.append(ActionInstance(a, tuple(v for _, v in params)))
+            sess.instance_tis.append([ti for ti, _ in params])
         except Exception as e:
             exc = type(e).__name__
         return g, exc
@@ -296,7 +366,8 @@ def gen_ops(w, rng, quick):
         return name_id[0]
     for ti in range(nT):
         ops.append(("add_fluent", fresh(), ti, ("none",)))
-        for v in w.values:
+        # every value of the common pool, and the values adjacent to the bounds of this very type
+        for v in w.values + w.boundary.get(ti, []):
             ops.append(("add_fluent", fresh(), ti, ("val", v)))
             ops.append(("set_init", fresh(), ti, True, v))
             ops.append(("instance", [(ti, v)]))
@@ -306,7 +377,7 @@ def gen_ops(w, rng, quick):
     # extras
     for _ in range(40 if quick else 400):
         ti = rng.randrange(nT)
-        v = rng.choice(w.values)
+        v = rng.choice(w.values + w.boundary.get(ti, []))
         r = rng.random()
         if r < 0.15:
             ops.append(("add_fluent", rng.randint(1, 30), ti, ("val", v) if rng.random() < 0.5 else ("none",)))   # name clash likely
@@ -321,7 +392,8 @@ def gen_ops(w, rng, quick):
             ops.append(("effect", rng.choice(["SInst", "SDur", "SProb"]), rng.choice(["EAssign", "EIncrease"]), ti, v, "true", True, 2000 + ti))  # unconditional: conflicts
         else:
             k = rng.randint(2, 3)
-            ops.append(("instance", [(rng.randrange(nT), rng.choice(w.values)) for _ in range(k)]))
+            tis = [rng.randrange(nT) for _ in range(k)]
+            ops.append(("instance", [(tj, rng.choice(w.values + w.boundary.get(tj, []))) for tj in tis]))
     rng.shuffle(ops)
     # conflicting pairs (the second raises UPConflictingEffectsException, an input of the model), kept adjacent
     for j in range(6 if quick else 40):
@@ -344,6 +416,9 @@ def gen_hierarchy_sessions(w):
         [(7, s1), (8, s1), (9, r1)],
         [(1, 5)], [(2, 5)], [(3, 5)], [(4, 0)], [(4, Fraction(1, 2))], [(5, Fraction(1, 2))], [(6, -3)], [(0, True)],
         [(1, 5), (4, Fraction(1, 2)), (0, False), (7, l1)],
+        # defaults sitting exactly on / just inside a bound that is not a small integer
+        [(10, Fraction(1, 10))], [(11, Fraction(1, 3) + Fraction(1, 10 ** 20))], [(12, 0.1)], [(13, 2 ** 53)],
+        [(14, Fraction(2 ** 54 - 1, 2))], [(5, 1 - Fraction(1, 2 ** 60)), (10, 0.1 - 2.0 ** -56), (12, -0.3)],
     ]
     nT = len(w.types)
     out = []
@@ -366,11 +441,12 @@ def gen_hierarchy_sessions(w):
 def gen_defaults(w, rng, quick):
     """Constructor arguments: every single (type, value) pair, and a few valid multi-entry dictionaries."""
     T = [t for _, t in w.types]
-    singles = [[(ti, v)] for ti in range(len(T)) for v in w.values]
+    singles = [[(ti, v)] for ti in range(len(T)) for v in w.values + w.boundary.get(ti, [])]
     valid = [
         [],
         [(0, False), (4, 0), (7, w.objects[1])],              # Bool: False, Real: 0 (an int), Loc: an object of the subtype
         [(1, 5), (2, 5), (3, 5), (5, Fraction(1, 2)), (6, -3), (8, w.objects[1]), (9, w.objects[2])],
+        [(10, Fraction(1, 10)), (11, Fraction(1, 3)), (12, 0.1), (13, -2 ** 53), (14, 2 ** 53), (6, Fraction(5, 2))],   # on the bounds
     ]
     return singles, valid
 
@@ -387,13 +463,15 @@ def run(ctx):
     cases, raw = [], []
     prop_fail = {}
     stats = {"constructor_calls": 0, "constructor_rejected": 0, "calls": 0, "calls_rejected": 0, "by_api": {}, "rejected_by_exception": {},
-             "matrix": "%d values x %d target types x 13 storing entry points" % (len(w.values), len(w.types))}
+             "matrix": "(%d common values x %d target types + %d bound-adjacent values of %d bounded numeric types, each against its own "
+                       "type) x 13 storing entry points" % (len(w.values), len(w.types), sum(len(b) for b in w.boundary.values()),
+                                                            len(w.boundary))}
 
     def gdefaults(ds):
-        return glist([gpair(w.gty(T[ti]), w.gval(v)) for ti, v in ds])
+        return glist([gpair(w.gty_decl(ti), w.gval(v)) for ti, v in ds])
 
     def run_session(ds, ops):
-        sess = Session(w, [(T[ti], v) for ti, v in ds])
+        sess = Session(w, ds)
         stats["constructor_calls"] += 1
         idx = len(cases)
         info = {"initial_defaults": [(w.types[ti][0], repr(v)) for ti, v in ds], "ops": [], "constructor_raised": sess.ctor_raised}
